@@ -310,22 +310,40 @@ func (w *world) judge(bc *core.BlockChain, db *logDB) []string {
 			break
 		}
 	}
-	// 4. no invalid block in the canonical index (anywhere)
+	// 4. no invalid block in the canonical index (anywhere); and, independently of the
+	// generator's labels, every canonical block's body hashes to its header's tx root
 	for n := uint64(0); n <= uint64(len(w.blocks))+1; n++ {
 		h := rawdb.ReadCanonicalHash(db, n)
 		if h == (common.Hash{}) {
 			continue
 		}
 		id := w.blockID[h]
+		how := "made canonical by reorg without being executed"
+		if w.executed[id] {
+			how = "imported as head"
+		}
+		if blk := rawdb.ReadBlock(db, h, n); blk != nil && types.DeriveSha(blk.Transactions()) != blk.Header().TxHash {
+			bad = append(bad, "canonical block's body does not hash to its header's transaction root ("+how+")")
+			break
+		}
 		if id >= 2 && int(id-2) < len(w.specs) && !w.valid(int(id-2)) {
-			// which kind: the block itself or an ancestor is ...
-			kind := "bad-signature block"
+			// the lowest invalid block of the ancestry
+			kind := ""
 			for i := int(id - 2); i >= 0; i = w.specs[i].Parent {
-				if w.specs[i].HV == hvBadCons || w.specs[i].BV != bvGood {
-					kind = "block failing the consensus-field, body or state check"
+				switch {
+				case w.specs[i].HV == hvBadSig:
+					kind = "bad-signature"
+				case w.specs[i].HV == hvBadCons:
+					kind = "bad-consensus-field"
+				case w.specs[i].BV == bvTxHashOnly:
+					kind = "tx-root-only-invalid"
+				case w.specs[i].BV == bvTxRoot:
+					kind = "body-mismatch"
+				case w.specs[i].BV != bvGood:
+					kind = "state/receipt/bloom/gas-invalid"
 				}
 			}
-			bad = append(bad, "invalid-block-canonical: "+kind)
+			bad = append(bad, "invalid-block-canonical: "+kind+" block "+how)
 			break
 		}
 	}
@@ -570,6 +588,12 @@ func (w *world) run(c Case, res *vf.Result, hits *[]interface{}) ([]stepRes, []d
 			mids = append(mids, mid)
 		}
 		db.log, db.snaps = nil, nil
+		for _, wl := range sr.Log {
+			var x uint64
+			if n, _ := fmt.Sscanf(wl[len(wl)-1], "WHeadB %d", &x); n == 1 {
+				w.executed[x] = true // the block this head switch was made for
+			}
+		}
 		if w.deleted > 0 {
 			addHit("import deleted a stored header, body or receipt", j, 0, fmt.Sprint(w.deleted, " deletions"))
 			w.deleted = 0
@@ -1040,7 +1064,7 @@ func forkCase(r *vf.Rng, res *vf.Result) Case {
 		if r.Bool() {
 			c.Tree[i].HV = 1 + r.Intn(3)
 		} else {
-			c.Tree[i].BV = 1 + r.Intn(4)
+			c.Tree[i].BV = 1 + r.Intn(7)
 		}
 		res.Count("tree with invalid or future blocks")
 	}
@@ -1311,9 +1335,94 @@ func downUpCase(r *vf.Rng, res *vf.Result) Case {
 	return c
 }
 
+// an invalid block of every kind at every position of every dispatch path: inside a
+// competing fork that outgrows the trunk (ErrExistCanonical at index 0 -> side chain
+// -> handed back: every fork block has i > 0), behind a known prefix (ErrExistCanonical
+// with i > 0 directly), on the plain path above the head, or below a stored child
+func invalidCase(r *vf.Rng, res *vf.Result) Case {
+	var c Case
+	uniq := r.Chance(50)
+	add := func(parent int) int {
+		i := len(c.Tree)
+		s := BlockSpec{Parent: parent, Salt: i + 1}
+		if uniq {
+			s.Txs = append(s.Txs, 1000+i)
+		}
+		if r.Chance(60) {
+			s.Txs = append(s.Txs, 1+r.Intn(3))
+		}
+		c.Tree = append(c.Tree, s)
+		return i
+	}
+	L := 2 + r.Intn(3)
+	p := -1
+	var trunk []int
+	for i := 0; i < L; i++ {
+		p = add(p)
+		trunk = append(trunk, p)
+	}
+	d := r.Intn(L) - 1 // fork point (index into trunk, -1 = genesis), below the tip
+	p = -1
+	if d >= 0 {
+		p = trunk[d]
+	}
+	F := L - d + r.Intn(2) // longer than the rest of the trunk
+	var fork []int
+	for i := 0; i < F && depthOf2(c.Tree, p) < 8; i++ {
+		p = add(p)
+		fork = append(fork, p)
+	}
+	if !uniq && r.Chance(50) && d+1 < L {
+		// same content as the trunk block at that height: equal state roots
+		c.Tree[fork[0]].Txs = append([]int{}, c.Tree[trunk[d+1]].Txs...)
+	}
+	bad := fork[r.Intn(len(fork))]
+	switch r.Intn(3) {
+	case 0:
+		c.Tree[bad].HV = 1 + r.Intn(2)
+	default:
+		c.Tree[bad].BV = 1 + r.Intn(7)
+	}
+	c.Batches = append(c.Batches, trunk)
+	switch r.Intn(4) {
+	case 0: // whole fork: side chain, handed back
+		c.Batches = append(c.Batches, fork)
+	case 1: // behind the known prefix
+		c.Batches = append(c.Batches, append(append([]int{}, trunk[:d+1]...), fork...))
+	case 2: // in pieces
+		k := 1 + r.Intn(len(fork))
+		c.Batches = append(c.Batches, fork[:k], fork)
+	default: // stored first (not longer), then the rest
+		k := len(fork) - 1
+		if k < 1 {
+			k = 1
+		}
+		c.Batches = append(c.Batches, fork[:k], fork[k:], fork)
+	}
+	if r.Chance(50) {
+		x := add(fork[len(fork)-1])
+		c.Batches = append(c.Batches, []int{x})
+	}
+	if r.Chance(30) {
+		c.Batches = append(c.Batches, trunk)
+	}
+	res.Count("tree with forks")
+	res.Count("tree with invalid or future blocks")
+	res.Count("invalid block inside a fork case")
+	if uniq {
+		res.Count("tree with pairwise distinct state roots")
+	} else {
+		res.Count("tree with shared state roots")
+	}
+	return c
+}
+
 func randCase0(r *vf.Rng, res *vf.Result) Case {
 	if r.Chance(35) {
 		return forkCase(r, res)
+	}
+	if r.Chance(15) {
+		return invalidCase(r, res)
 	}
 	if r.Chance(12) {
 		return downUpCase(r, res)
@@ -1365,7 +1474,7 @@ func randCase0(r *vf.Rng, res *vf.Result) Case {
 			if r.Bool() {
 				c.Tree[i].HV = 1 + r.Intn(3)
 			} else {
-				c.Tree[i].BV = 1 + r.Intn(4)
+				c.Tree[i].BV = 1 + r.Intn(7)
 			}
 		}
 		res.Count("tree with invalid or future blocks")
